@@ -12,7 +12,11 @@ package props
 
 import (
 	"bytes"
+	"encoding/json"
 	"fmt"
+	"os"
+	"os/exec"
+	"path/filepath"
 	"sync"
 	"testing"
 
@@ -188,6 +192,52 @@ func c19Solo(c C19Case) [][]app.Step {
 	return out
 }
 
+// c19FreshProcess compares the sequential transcripts of this (long-running) process with
+// the ones a process of its own gives for the same sessions: state the library keeps per
+// process — filled in by other sessions or by earlier cases — must not show in any answer.
+func c19FreshProcess(c C19Case, solo [][]app.Step) (*Violation, bool) {
+	bin := filepath.Join(os.Getenv("VERIF_BIN"), "c19solo")
+	if _, err := os.Stat(bin); err != nil {
+		return nil, false
+	}
+	if c.Mode.Kind == "persist" && c.Mode.Backend == "pg" {
+		return nil, false // the fake server lives in the test package
+	}
+	dir := workDir()
+	defer os.RemoveAll(dir)
+	job := map[string]any{"app": c.App, "hists": c.Hists, "mode": c.Mode, "dir": dir}
+	jb, _ := json.Marshal(job)
+	jp := filepath.Join(dir, "job.json")
+	os.WriteFile(jp, jb, 0o600)
+	cmd := exec.Command(bin, jp)
+	var stdout, stderr bytes.Buffer
+	cmd.Stdout, cmd.Stderr = &stdout, &stderr
+	if err := cmd.Run(); err != nil {
+		return nil, false
+	}
+	var fresh [][]struct {
+		Visible string        `json:"visible"`
+		Panic   string        `json:"panic"`
+		Ends    bool          `json:"ends"`
+		After   *app.Snapshot `json:"after"`
+	}
+	if json.Unmarshal(stdout.Bytes(), &fresh) != nil || len(fresh) != len(solo) {
+		return nil, false
+	}
+	for i := range solo {
+		if len(fresh[i]) != len(solo[i]) {
+			return viol("fresh-process-differs", "session %d answers %d requests in this process and %d in a process of its own", i, len(solo[i]), len(fresh[i])), true
+		}
+		for j := range solo[i] {
+			a, b := solo[i][j], fresh[i][j]
+			if a.Visible() != b.Visible || (a.Panic != "") != (b.Panic != "") {
+				return viol("fresh-process-differs", "session %d request %d (%q):\n in this process (after other sessions and cases): %s panic=%q\n in a process of its own: %s panic=%q", i, j, a.Input, a.Visible(), a.Panic, b.Visible, b.Panic), true
+			}
+		}
+	}
+	return nil, true
+}
+
 func c19Compare(c C19Case, solo, got [][]app.Step, how string) *Violation {
 	for i := range c.Hists {
 		if len(solo[i]) != len(got[i]) {
@@ -271,7 +321,19 @@ func checkC19Sched(c C19Case) (o Outcome) {
 		o.Viol = v
 		return
 	}
-	o.NonTrivial, o.Classes = c19Features(c, solo)
+	// one case in eight also against a process of its own (chosen by the case's content, so
+	// that a replay makes the same choice)
+	if jb, _ := json.Marshal(c.Hists); hash64(jb)%8 == 0 {
+		if v, ran := c19FreshProcess(c, solo); v != nil {
+			o.Viol = v
+			return
+		} else if ran {
+			o.class("compared-with-a-fresh-process")
+		}
+	}
+	nt, cl := c19Features(c, solo)
+	o.NonTrivial = nt
+	o.Classes = append(o.Classes, cl...)
 	return
 }
 
@@ -329,7 +391,15 @@ func checkC19Conc(c C19Case) (o Outcome) {
 			return
 		}
 	}
-	o.NonTrivial, o.Classes = c19Features(c, solo)
+	if v, ran := c19FreshProcess(c, solo); v != nil {
+		o.Viol = v
+		return
+	} else if ran {
+		o.class("compared-with-a-fresh-process")
+	}
+	nt, cl := c19Features(c, solo)
+	o.NonTrivial = nt
+	o.Classes = append(o.Classes, cl...)
 	return
 }
 
